@@ -445,7 +445,7 @@ func main() {
 	runner.Main(&runner.Harness{
 		ID:    "C17",
 		Level: "model_checking",
-		Rule:  "per-connection limits {none, 2 B/s default burst, 2/1, 5/3, 5/8, 1000/default, 2.5/1} x total limits {none, 5 B/s default burst, 2/3} x latency {0, 500 ms} x reader buffer {1,2,5,64} x stream sizes 0..20 x supply {all at once, one byte every 150 ms} x 1 or 2 concurrent connections sharing the handler; every interleaving / early timer / short read within the joint deviation budget; golang.org/x/time/rate itself runs on the virtual clock",
+		Rule:  "per-connection limits {none, 2 B/s default burst, 2/1, 5/3, 5/8, 1000/default, 2.5/1} x total limits {none, 5 B/s default burst, 2/3} x latency {0, 500 ms} x reader buffer {1,2,5,64} x stream sizes 0..20 x supply {all at once, one byte every 150 ms} x 1 or 2 concurrent connections sharing the handler; every interleaving / early timer / short read within the joint deviation budget; golang.org/x/time/rate itself runs on the virtual clock; configurations with a burst size and no rate (the reader blocks once the burst is spent); two throttle handlers in one route; two connections under a handler-wide limit with a scheduling point before every call to the shared limiter",
 		Assumptions: []string{
 			"computation takes no virtual time; bound checked at every underlying read with exact virtual timestamps and 1e-6 slack for float rounding",
 			"the time origin of the bound is the first Read call through the throttle of the connection (for the total limit: of any connection)",
